@@ -403,6 +403,9 @@ func (c *checker) let(n *hs.Let, global bool) {
 	if xt.K == hs.KNull && n.T == nil {
 		c.unsupported("let with a null-typed initialiser")
 	}
+	if _, isSpawn := n.X.(*hs.Spawn); isSpawn {
+		c.unsupported("thread handle bound to a variable")
+	}
 	if force {
 		vt = TUnknown
 	}
@@ -850,6 +853,8 @@ func (c *checker) expr1(e hs.Expr) *hs.Type {
 			return TUnknown
 		}
 		c.args(e, ft, n.Args, true)
+		// what a thread handle offers is host/runtime business: its type is not compared
+		c.res.Opaque[e] = true
 		return hs.TObj(hs.Field{Name: "join", T: fn0(ret(ft))})
 	case *hs.Index:
 		xt := c.expr(n.X, false)
